@@ -3,7 +3,7 @@ import sys
 import time
 
 from engine.prelude import tick, flag, excluded, bits, PART, xh_control
-from sandbox_common import TERMINATIONS, state, fresh, enter, use_real_stream
+from sandbox_common import stub_canary, TERMINATIONS, state, fresh, enter, use_real_stream, stub_reached
 import pedal.sandbox.sandbox as SB
 
 _REAL_RUNTIME_ERROR = SB.runtime_error
@@ -65,6 +65,7 @@ def restore1(t0: bool, t1: bool, t2: bool, t3: bool, text: str, fault: bool, clo
     state["term"], state["text"], state["close"] = term, text, close
     snap = _snapshot()
     _set_fault(fault)
+    calls_before = state["calls"]
     try:
         try:
             enter(sb, entry)
@@ -72,6 +73,9 @@ def restore1(t0: bool, t1: bool, t2: bool, t3: bool, text: str, fault: bool, clo
             if xh_control(e):
                 raise
             flag("propagated")
+        if not stub_reached(calls_before):
+            flag("stub_dead")
+            return True
         return _restored(sb, snap)
     finally:
         state["term"], state["close"] = 0, False
